@@ -277,6 +277,9 @@ func suiteC07(s *Suite, rng *Rng, tier string) {
 			sa, _ := h.accs[len(h.accs)-1].Sign(kp.Sk)
 			w.SignedAccumulator = sa
 			attrs := []*gbig.Int{secret, rng.Bits(100), rng.Bits(60), w.E, rng.Bits(200)}
+			if k%2 == 0 {
+				attrs[4] = bi(0) // an absent optional attribute: hidden like any other, with a randomizer of its own in every proof
+			}
 			sig, err := gabi.SignMessageBlock(kp.Sk, pk, attrs)
 			if err != nil {
 				panic(err)
